@@ -435,6 +435,24 @@ def scenarios():
           {'id': 'c1', 'holder': 'Config', 'type': 'stylesheet', 'syntax': 'sass', 'cache': 'k0', 'snippets': STYLE_SN, 'options': {'stylesheet.shortHex': False}}]
     scen('reach-corpus/stylesheet', _w(rs, caches=['k0']), [call(c, a) for a in ga.REACH_STYLESHEET for c in ('c0', 'c1', 'c0')])
 
+    # 3e. nothing of a failed call stays alive once the caller let go of the exception (census only)
+    fc_m = [('p[title=${', None), ('a)', None), ('ul>li*2>a"', None), ('div>(p', None), ('ol>li*4>{$#}', None), ('ul>li*3>a[title=${nope}]', None),
+            ('ul>bad', None), ('ul>li.i$*3>a{t}', {'kind': 'F3', 'k': 4}), ('ul>li.i$*3>a{t}', {'kind': 'F3', 'k': 9, 'exc': 'TypeError'}),
+            ('div.b>p.-e*2>foo', {'kind': 'F5', 'mode': 'nth', 'n': 40}), ('div.b>p.-e*2>foo', {'kind': 'F5', 'mode': 'nth', 'n': 400}),
+            ('div.b>p.-e*2>foo', {'kind': 'F5', 'mode': 'nth', 'n': 900, 'exc': 'base'}), ('div.b>p.-e*2>foo', {'kind': 'F5', 'mode': 'nth', 'n': 1500})]
+    for holder in ('dict', 'Config'):
+        c = {'id': 'c0', 'holder': holder, 'text': ['t1', 't2'], 'snippets': dict(USER_SN, bad='a"'), 'options': {'bem.enabled': True},
+             'peer': {'seed': 6, 'style': 'textmate'}}
+        scen('nothing-kept-after-failure/markup/%s' % holder, _w([c]),
+             [dict({'op': 'fail_census', 'cfg': 'c0', 'ok': 'ul>li*2>a', 'bad': b}, **({'fault': f} if f else {})) for b, f in fc_m])
+    fc_s = [('m10 p10', None), ('foo(!)', None), ('p${1', None), ('animic', None), ('lg(#f', None), ('badsn', None),
+            ('m10+kmar+c#f', {'kind': 'F3', 'k': 3}), ('m10+kmar+c#f', {'kind': 'F5', 'mode': 'nth', 'n': 60}),
+            ('m10+kmar+c#f', {'kind': 'F5', 'mode': 'nth', 'n': 700}), ('m10+kmar+c#f', {'kind': 'F5', 'mode': 'nth', 'n': 1400, 'exc': 'base'})]
+    for holder in ('dict', 'Config'):
+        c = {'id': 'c0', 'holder': holder, 'type': 'stylesheet', 'cache': 'k0', 'snippets': dict(STYLE_SN), 'peer': {'seed': 8, 'style': 'identity'}}
+        scen('nothing-kept-after-failure/stylesheet/%s' % holder, _w([c], caches=['k0']),
+             [dict({'op': 'fail_census', 'cfg': 'c0', 'ok': 'm10+zom', 'bad': b}, **({'fault': f} if f else {})) for b, f in fc_s])
+
     # 4. unbounded growth with distinct inputs (census only, no references)
     scen('distinct-inputs/markup-html', _w([{'id': 'c0', 'holder': 'dict', 'options': {'bem.enabled': True, 'comment.enabled': True}}]),
          [{'op': 'soak_distinct', 'cfg': 'c0'}])
